@@ -115,6 +115,9 @@ func copyMeta(m map[string]string) map[string]string {
 	return c
 }
 
+// verifLog collects the marshalled changes in apply order (the replicated log).
+var verifLog [][]byte
+
 // apply sends one change through the real process() and returns the outcome
 // that the apply loop delivered to the proposer's notification channel.
 func verifApply(p *partition, change *pb.PartitionChange) (interface{}, bool) {
@@ -125,6 +128,7 @@ func verifApply(p *partition, change *pb.PartitionChange) (interface{}, bool) {
 	if err != nil {
 		panic(err)
 	}
+	verifLog = append(verifLog, data)
 	if err := p.process(data); err != nil {
 		verifrt.Tag("apply-returned-error")
 		verifrt.Assert(false, "apply-never-returns-error")
